@@ -66,10 +66,11 @@ def gen_c15(tier, rng):
         names = rng.shuffle(["alpha", "beta", "gamma", "delta", "eps", "zeta", "eta", "theta", "no-x", "x", "o" * 20, "p" * 30])
         letters = rng.shuffle(list("abcdefgxyzAB1"))
         ngroups = 1 + rng.below(4)
+        gnames = rng.shuffle(["output", "input", "misc", "zeta group", "alpha group", "Group 1"])
         groups = []
         for g in range(ngroups):
             es = [rand_entry(rng, names, letters) for _ in range(rng.below(4))] if names else []
-            gname = "arguments" if g == 0 else "group %d" % g
+            gname = "arguments" if g == 0 else gnames[g]
             gdesc = "" if g == 0 else rng.choice(["", "about this group", text(rng, 6)])
             groups.append((gname, gdesc, es))
         app = rng.choice(["main", "p", "application-name", "a" * 30])
@@ -97,8 +98,27 @@ def model_input(c, a):
     return c + "\t" + hexl(names)
 
 
+def _left_columns(case):
+    """the left column ('  -s, --[no-]name METAVAR') of every entry of the case"""
+    out = []
+    for g in case.split("\t")[4].split(";"):
+        es = g.split(":")[2]
+        for e in (es.split("|") if es else []):
+            kind, name, short, _env, mv, _desc, _dflt, rev = e.split(",")
+            name, short, mv = (unhexs(x).decode("latin-1") for x in (name, short, mv))
+            left = "  " + ("-%s, " % short if short else "") + ("--[no-]" if kind == "t" and rev == "1" else "--") + name
+            if kind != "t":
+                left += " " + mv
+            out.append(left)
+    return out
+
+
 def known_u2(case, impl, verdict):
-    return verdict.startswith("bad:line-longer-than-80") and _line(verdict).startswith("  -")
+    # exactly the left column of an entry, alone on its line, and wider than 80 on its own
+    if not verdict.startswith("bad:line-longer-than-80"):
+        return False
+    line = _line(verdict)
+    return len(line) > 80 and line in _left_columns(case)
 
 
 def known_u3(case, impl, verdict):
